@@ -12,7 +12,7 @@ from ..dag import T, walk, show, deep_inline, simplify
 from ..model import FunctionInfo, AnalysisError, dotted
 from ..report import Ctx
 from ..tensor import Typer, MODEL_ARRAYS
-from ..util import norm, fn_body_nodes, walk_local, kwarg
+from ..util import ordered_args, norm, fn_body_nodes, walk_local, kwarg
 from .common import arg_permutation_rule, names_in, calls_named
 from .. import pat
 
@@ -366,9 +366,9 @@ def rule_ga(ctx: Ctx):
     c = [n for n, _e in Sv.find("stochastic_fsc_policy_evaluation_exact(REST, REST=ANY)")]
     # the controller that is evaluated / returned: each strategy in canonical form (which logit, softmax over which axis), so that it does not
     # matter whether `<logit>.softmax(-1)` is written in place or named by a temporary
-    ev_nodes = (list(c[0].args[1:]) + [kwarg(c[0], "fsc_initial_state")]) if c else []
+    ev_nodes = (list(ordered_args(c[0])[1:3]) + [kwarg(c[0], "fsc_initial_state")]) if c else []       # by parameter, positional or keyword
     pol = _resolve(S, kwarg(res, "policy"))
-    pol_nodes = list(pol.args[1:]) if isinstance(pol, ast.Call) else []
+    pol_nodes = list(ordered_args(pol)[1:]) if isinstance(pol, ast.Call) else []
     ev_can = [_softmax_of(Sv, a) for a in ev_nodes]
     pol_can = [_softmax_of(S, a) for a in pol_nodes]
     # the logit locals, named by their position in the returned controller
